@@ -373,6 +373,30 @@ def r7_evaluate_constraints(ctx):
         in_result = bi in rets["calls"]
         x_ok = 6 in arg_slice(f, t, 2)["args"]
         kinds[which] = in_result and x_ok and bool(L)
+    # fold form: `groups.iter().fold(acc0, |acc, group| acc + group.evaluate_at(state, x))`
+    from ..patterns import upvar_origins
+    for bi, t in f.calls():
+        c = callee_of(t) or {}
+        if c.get("name") != "fold" or c.get("krate") != "core" or f.is_cleanup(bi) or len(t["a"]) != 3:
+            continue
+        recv = arg_slice(f, t, 0)
+        src = names_in(f, recv)
+        which = "main" if "main_constraints" in src else ("aux" if "aux_constraints" in src else None)
+        if which is None or kinds.get(which) or src & {"skip", "take", "step_by", "filter", "skip_while", "take_while", "rev"} - {"rev"}:
+            continue
+        good = False
+        for ck in arg_slice(f, t, 2)["closures"]:
+            cf = ctx.p.fn(ck)
+            cret = cf.backward_slice([0])
+            for b2, t2 in cf.calls():
+                if (callee_of(t2) or {}).get("name") != "evaluate_at" or cf.is_cleanup(b2) or b2 not in cret["calls"] or 2 not in cret["args"]:
+                    continue
+                recv_item = 3 in arg_slice(cf, t2, 0)["args"] or any(pl[0] == 3 for pl in arg_slice(cf, t2, 0)["places"])
+                x_ok = any(pf.key == f.key and any(6 in f.backward_slice([l])["args"] or l == 6 for l in locs)
+                           for pf, locs in upvar_origins(ctx.p, cf, arg_slice(cf, t2, 2)))
+                if recv_item and x_ok:
+                    good = True
+        kinds[which] = good and bi in rets["calls"]
     for w in ("main", "aux"):
         ctx.ob("R7", "%s-boundary-groups-in-result" % w, kinds.get(w, False),
                "result += group.evaluate_at(frame.current(), x) for every %s boundary constraint group" % w if kinds.get(w) else
